@@ -168,7 +168,7 @@ pub fn run(run: &'static Run) {
          message lengths 0..=59) at every buffer size. non-trivial = log has >= 1 line (forward parse == written lines, reverse == reversed forward)"
     ));
     run.assume("'longest line' counts the line feed; for a final line without LF the buffer is still at least that line + 1 (smaller buffers are outside the stated domain)");
-    run.assume("messages are free of LF (refused by the writer) and CR (see sub-check cr-message)");
+    run.assume("messages are free of LF (refused by the writer); messages ending in CR are covered by sub-check cr-message");
     run.budget_secs(run.pick(40.0, 600.0));
 
     let msgs: [&[u8]; 5] = [b"", b"m", b"mm", b"xxxxxxxxxxxxxxxxxxxxxxxxxxxxxxxxxxxxxxxx", b"a b\tc"];
@@ -220,7 +220,7 @@ pub fn run(run: &'static Run) {
         eval,
     );
 
-    // messages ending in CR: written verbatim by Line::write_to; reported separately so that the main space stays clean
+    // messages ending in CR: written verbatim by Line::write_to and must read back verbatim in both directions
     run.sub(
         "cr-message",
         |emit| {
